@@ -32,6 +32,9 @@ pub enum Idx {
     /// An index different from the preselected one (`presel + 1 + r mod (len-1)`); falls
     /// back to the preselected one when the list has a single entry.
     Other(u8),
+    /// Counted from the end of the list: `len - 1 - min(k, len - 1)` (the deep end of a long
+    /// list, where truncation and paging bite).
+    Top(u8),
 }
 
 #[derive(Clone, PartialEq, Eq, Debug, Serialize, Deserialize)]
